@@ -5,9 +5,7 @@ package main
 
 import (
 	"bufio"
-	crand "crypto/rand"
 	"encoding/json"
-	"errors"
 	"flag"
 	"fmt"
 	"os"
@@ -23,34 +21,11 @@ import (
 	"verif/sim/worlds/sign"
 )
 
-// brokenSystemEntropy: in some pool-world jobs the system entropy source
-// (crypto/rand.Reader) is broken - fails, or delivers zeros - while the
-// process makes its first calls into the library, and healthy afterwards
-// (an early-boot process, a sandbox without /dev/urandom).  No operation of
-// the pool world asks for system entropy on the unchanged tree; a library
-// that samples a process-wide mask or seed lazily gets a bad one.
-type brokenSystemEntropy struct{ zeros bool }
-
-func (b brokenSystemEntropy) Read(p []byte) (int, error) {
-	if !b.zeros {
-		return 0, errors.New("simulated system entropy source: not available")
-	}
-	for i := range p {
-		p[i] = 0
-	}
-	return len(p), nil
-}
-
-// withFirstRunEntropy runs f (the first history of a pool-world job) with
-// the system entropy source broken, when the job's first index says so.
-func withFirstRunEntropy(world string, jobFrom int, f func()) {
-	if world != "pool" || (jobFrom/13)%4 != 2 {
-		f()
-		return
-	}
-	old := crand.Reader
-	crand.Reader = brokenSystemEntropy{zeros: (jobFrom/13)%8 == 6}
-	defer func() { crand.Reader = old }()
+// withFirstRunEntropy runs f, the first history of the process, and then
+// ends the broken-system-entropy fault if the driver injected it (see
+// kernel.SystemEntropyFor).
+func withFirstRunEntropy(f func()) {
+	defer kernel.RestoreSystemEntropy()
 	f()
 }
 
@@ -174,7 +149,7 @@ func main() {
 		for i := rf.Idx - rf.Prefix; i < rf.Idx; i++ {
 			run := func() { runOne(rf.World, rf.Prop, *variant, rf.VerifSeed, i, nil, false) } // process history only
 			if i == rf.Idx-rf.Prefix {
-				withFirstRunEntropy(rf.World, rf.Idx-rf.Prefix, run)
+				withFirstRunEntropy(run)
 			} else {
 				run()
 			}
@@ -182,7 +157,7 @@ func main() {
 		var res *kernel.Result
 		last := func() { res = runOne(rf.World, rf.Prop, *variant, rf.VerifSeed, rf.Idx, rf.Tape, true) }
 		if rf.Prefix == 0 {
-			withFirstRunEntropy(rf.World, rf.Idx, last)
+			withFirstRunEntropy(last)
 		} else {
 			last()
 		}
@@ -205,7 +180,10 @@ func main() {
 		var res *kernel.Result
 		first := func() { res = runOne(*world, *prop, *variant, *seed, i, nil, *trace) }
 		if i == *from {
-			withFirstRunEntropy(*world, *from, first)
+			withFirstRunEntropy(first)
+			if m := os.Getenv("VERIF_SYSTEM_ENTROPY"); m != "" {
+				res.Faults["system_entropy_source_broken_while_the_process_starts:"+m]++
+			}
 		} else {
 			first()
 		}
